@@ -23,7 +23,11 @@ inductive St
   | skip
   | assign (x : Nat) (e : Ex)
   | store (i e : Ex)               -- array[i] = e
-  | growTo (n : Ex)                -- yyalloc / yyrealloc succeeded: the array has n elements now, the old ones kept
+  | growTo (n : Ex)                -- yyalloc / yyrealloc succeeded: the array has n elements now, the old ones kept,
+                                   -- the new ones hold whatever the allocator left there (`garbage`)
+  | zero (i n : Ex)                -- memset(array + i, 0, n elements)
+  | call (f : Nat) (e : Ex)        -- a call of a function outside the model, with its argument: logged
+  | scope (s : St)                 -- the body of an inlined function: `return` ends it
   | ite (c : Ex) (t e : St)
   | seq (a b : St)
   | fatal (m : Nat)                -- YY_FATAL_ERROR: does not return
@@ -40,6 +44,10 @@ deriving Repr, DecidableEq, Inhabited
 structure State where
   vars : Nat → Int
   arr : List Int
+  log : List (Nat × Int) := []
+
+/-- what freshly allocated memory holds: not zero -/
+def garbage : Int := 2989
 
 def b2i (b : Bool) : Int := if b then 1 else 0
 
@@ -78,8 +86,23 @@ def St.run : St → State → State × Outcome
     | _, _ => (s, .oob)
   | .growTo n, s =>
     match n.eval s with
-    | some k => ({ s with arr := s.arr ++ List.replicate (k.toNat - s.arr.length) 0 }, .normal)
+    | some k => ({ s with arr := s.arr ++ List.replicate (k.toNat - s.arr.length) garbage }, .normal)
     | none => (s, .oob)
+  | .zero i n, s =>
+    match i.eval s, n.eval s with
+    | some k, some c =>
+      if 0 ≤ k ∧ 0 ≤ c ∧ k.toNat + c.toNat ≤ s.arr.length then
+        ({ s with arr := s.arr.take k.toNat ++ List.replicate c.toNat 0 ++ s.arr.drop (k.toNat + c.toNat) }, .normal)
+      else (s, .oob)
+    | _, _ => (s, .oob)
+  | .call f e, s =>
+    match e.eval s with
+    | some v => ({ s with log := s.log ++ [(f, v)] }, .normal)
+    | none => (s, .oob)
+  | .scope b, s =>
+    match b.run s with
+    | (s', .returned _) => (s', .normal)
+    | r => r
   | .ite c t e, s =>
     match c.eval s with
     | some v => if v != 0 then t.run s else e.run s
